@@ -43,6 +43,8 @@ func printItems(items []*bitem) string {
 		switch it.kind {
 		case "text", "code":
 			sb.WriteString(it.text)
+		case "qvar":
+			sb.WriteString("{{ q }}")
 		case "super":
 			sb.WriteString("{{ block.Super }}")
 		case "block":
@@ -65,6 +67,8 @@ func refRender(chain []*btpl, items []*bitem, supers [][]*bitem, out *strings.Bu
 			// template code that renders nothing in the reference
 		case "text":
 			out.WriteString(it.text)
+		case "qvar":
+			out.WriteString(refQ) // the variable of the loop the block is rendered in (nothing outside a loop)
 		case "super":
 			if len(supers) > 0 {
 				refRender(chain, supers[len(supers)-1], supers[:len(supers)-1], out)
@@ -80,11 +84,17 @@ func refRender(chain []*btpl, items []*bitem, supers [][]*bitem, out *strings.Bu
 		case "if":
 			refRender(chain, it.items, supers, out)
 		case "loop":
-			refRender(chain, it.items, supers, out)
-			refRender(chain, it.items, supers, out)
+			outer := refQ
+			for _, q := range []string{"a", "b"} {
+				refQ = q
+				refRender(chain, it.items, supers, out)
+			}
+			refQ = outer
 		}
 	}
 }
+
+var refQ string
 
 type c10Gen struct {
 	rg     *rng
@@ -100,6 +110,10 @@ func (g *c10Gen) blockBody(level int, name string, d int, allowSuper bool) []*bi
 		items = append(items, &bitem{kind: "super"})
 	}
 	items = append(items, &bitem{kind: "text", text: fmt.Sprintf("(%d%s)", level, name)})
+	if g.rg.chance(1, 3) {
+		// a definition whose text depends on where the block is rendered (the loop around it)
+		items = append(items, &bitem{kind: "qvar"})
+	}
 	if d > 0 && g.rg.chance(1, 3) {
 		// a nested block, always under a fresh name (re-declaring, inside a definition of
 		// block X, a block that some template nests X in makes the blocks contain each
